@@ -135,6 +135,24 @@ CLAIMED = {
          'stale_removed / loop on every run-shaped small model; three kinds of real rows are judged: real runs of the shared plan with the rerun formatter, '
          "the same runs with a planted stale file followed by the real collect_feature_locations(['@rerun.txt']) + parse_features + a second real run, and "
          'TLC-emitted models rendered to real feature files with statuses set on the real objects.'},
+    'C04': {'design_ref': 'DESIGN.md §7 C04',
+ 'note': 'Keyword attributes compared case-insensitively (the parser matches keywords case-insensitively by design); parse_rule is a known finding (unusable '
+         'helper).',
+ 'technique': 'TLA+ spec (GherkinParser.tla + GherkinDoc.tla) model-checked with TLC + TLC-judged projections of really parsed TLC-generated documents',
+ 'text': 'GherkinParser.tla is a transcription of the 10-state line machine (one operator per action_<state>, every dereference guarded) that builds an '
+         'abstract model; GherkinDoc.tla is an independent document grammar writing lines AND the expected model; TLC proves Parse(Lines(d)) = d (structure, '
+         'tags, step types with And/But/* inheritance incl. backgrounds, tables, doc-strings, descriptions, 1-based lines) and that injected blank/comment '
+         'lines only renumber, for every document shape of the bound, rich 3-element details and simulated long documents; every document is rendered to text '
+         '(indentation, every alias of every keyword, 14/80 languages, quote styles, escaped pipes, tag layouts) and parsed by parse_feature / parse_file / '
+         'parse_steps / parse_scenario / parse_rule / parse_tags; the projected real model is judged by TLC against d.'},
+    'C05': {'design_ref': 'DESIGN.md §7 C05',
+ 'note': 'Three families of the secondary entry points (Rule/Outline/Background lines, parse_rule, parse_scenario on a leading step) are known findings.',
+ 'technique': 'TLA+ spec (GherkinParser.tla) model-checked with TLC on all bounded line-class sequences + TLC-judged outcomes of the real parser on the same '
+              'sequences',
+ 'text': 'TLC explores the line machine of GherkinParser.tla on EVERY line-class sequence up to length 4/5 (25-30 classes, pruned below error prefixes) from '
+         'all five entry points with invariants NoCrash / ErrorLineInRange / ErrorAtLastLine; every enumerated sequence, all single-line mutations of '
+         'well-formed documents and seeded soups up to 40 lines are rendered and parsed by the real entry points; the outcome class (accept | ParserError@k | '
+         'internal:<type>) is judged by TLC (C05.internal, line_range, fault_line for six catalogued fault kinds decided by TLC itself, terminates).'},
 }
 
 PENDING_REASON = "check not built yet in this round (planned with the same TLA+/TLC technique, see DESIGN.md §7); not claimed until its check exists"
